@@ -1056,4 +1056,341 @@ Section RT.
           -- apply payq_exact; auto. apply small_tlv_payload in Hsv. exact Hsv.
         * apply ne_absent; auto.
   Qed.
+
+  (* ================================================================================================ *)
+  (* Rejection inside a nested value.  mixedk K es x: the elements es interleaved with runs of skippable unrecognised
+     elements, followed by a remainder satisfying K.  The step lemmas in continuation form, the loop over a prefix of
+     complete fields, and the "bad element" lemmas: a struct-typed element whose value bytes the nested parser rejects
+     with ErrUnrecognizedField makes the enclosing parser return that error. *)
+  Section Kont.
+  Variable K : bytes -> Prop.
+
+  Inductive mixedk : list bytes -> bytes -> Prop :=
+  | mk_nil x : K x -> mixedk [] x
+  | mk_cons u e es x : unk false u -> mixedk es x -> mixedk (e :: es) (u ++ e ++ x).
+
+  Lemma mixedk_inv_cons e es x : mixedk (e :: es) x -> exists u x1, x = u ++ e ++ x1 /\ unk false u /\ mixedk es x1.
+  Proof using. intros H. inversion H; subst. eauto. Qed.
+
+  Lemma step_single_k i g pl : nth_error fs i = Some g -> single (fk g) = true -> present (fk g) (nth i vs VNone) = true ->
+    small pl -> payq f (fk g) (nth i vs VNone) pl ->
+    forall es x k s p pre, inv i s p -> mixedk (tlv (ftyp g) pl :: es) x -> (length x < k)%nat ->
+    exists k' s' p' pre' x', mixedk es x' /\ inv (S i) s' p' /\ (length x' < k')%nat /\
+      b_ploop sub k m ic s p (mkbr pre x) = b_ploop sub k' m ic s' p' (mkbr pre' x').
+  Proof using Hsub Hm Hf Hwf HQ.
+    clear Hsmall.
+    intros Hg Hs Hp Hspl Hpay es x k s p pre Hinv Hmix Hk.
+    assert (Hin0 : (i < n)%nat) by (apply nth_error_Some; congruence).
+    set (v := nth i vs VNone) in *.
+    pose proof (wf_at i g Hg) as Hw. fold v in Hw.
+    pose proof (inv_to_mid i g s p Hg Hinv) as Hmid.
+    assert (Hi : (i < length vs)%nat) by (rewrite len_vs; apply nth_error_Some; congruence).
+    destruct (mixedk_inv_cons _ _ _ Hmix) as [u [x1 [-> [Hu Hm1]]]].
+    destruct Hmid as [Mv Mh Mp Mw Ml].
+    assert (Hin : (i < n)%nat) by (apply nth_error_Some; congruence).
+    destruct (b_ploop_unk u Hu k s p pre (tlv (ftyp g) pl ++ x1)) as [k1 [Hk1 E1]]; [lia|exact Hk|].
+    rewrite E1. destruct k1 as [|k2]; [lia|].
+    rewrite (b_ploop_step sub m nm Hm ic).
+    2:{ pose proof (tlv_length_ge2 (ftyp g) pl). destruct (tlv (ftyp g) pl); [cbn in *; lia|discriminate]. }
+    destruct (b_pstep_field sc sub m nm Hm ic i g pl (Z.of_nat (length (rev u ++ pre))) s p (rev u ++ pre) x1 Hg
+                (single_is_data _ Hs) Hspl Mp) as [s1 [V1 [H1 E2]]].
+    { intros Ho. apply (walk_from_mid i (zero_of (fk g)) s p); [lia| |exact Ho]. constructor; auto. }
+    rewrite E2.
+    destruct (b_rd_field_single_pay sc D Fmax Hsub f ic i (fk g) v pl (Z.of_nat (length (rev u ++ pre))) s1
+                (rev (tl_enc (N.of_nat (length pl))) ++ rev (tl_enc (ftyp g)) ++ rev u ++ pre) x1 Hf Hs Hw Hp Hspl
+                (payq_pay f (fk g) v pl Hpay))
+      as [s2 [E3 [V2 H2]]].
+    rewrite E3.
+    eexists k2, s2, _, _, x1. split; [exact Hm1|]. split; [|split; [|reflexivity]].
+    - apply (make_inv i g); auto.
+      + rewrite V2, V1, Mv. rewrite <- (firstn_len_i i) at 1 by lia. apply upd_app_mid.
+      + intros j g' Hj Hg' Hpj Hrj. rewrite H2.
+        destruct (Nat.eq_dec j i) as [->|Hne].
+        * apply nth_upd_same. destruct H1 as [L1 _]. rewrite <- L1, Ml. apply nth_error_Some. congruence.
+        * rewrite nth_upd_other by congruence. apply H1. apply (Mh j g'); auto. lia.
+      + destruct (ordered m); destruct (is_rep (fk g)) eqn:Er; lia.
+      + intros Ho j g' Hj Hg'. rewrite Ho in Hj.
+        assert (Er : is_rep (fk g) = false) by (destruct (fk g); try discriminate Hs; reflexivity).
+        rewrite Er in Hj. lia.
+      + rewrite H2, upd_length. destruct H1 as [L1 _]. rewrite <- L1. exact Ml.
+    - rewrite !app_length in Hk1. pose proof (tlv_length_ge2 (ftyp g) pl). lia.
+  Qed.
+
+
+  Lemma step_seq_k i g k0 : nth_error fs i = Some g -> fk g = KSeq k0 -> seq_sub_ok k0 = true ->
+    forall (lp : list (value * bytes)) old es x k s p pre,
+    (forall e pl, In (e, pl) lp -> is_none e = false /\ wf_val f sc k0 e = true /\ small pl /\ payq (pred f) k0 e pl) ->
+    inv_mid i (VSeq old) s p -> mixedk (map (fun ep => tlv (ftyp g) (snd ep)) lp ++ es) x -> (length x < k)%nat ->
+    exists k' s' p' pre' x', mixedk es x' /\ inv_mid i (VSeq (old ++ map fst lp)) s' p' /\ (length x' < k')%nat /\
+      b_ploop sub k m ic s p (mkbr pre x) = b_ploop sub k' m ic s' p' (mkbr pre' x').
+  Proof using Hsub Hm Hf Hwf HQ.
+    clear Hsmall.
+    intros Hg Hk Hsub0.
+    assert (Hi : (i < length vs)%nat) by (rewrite len_vs; apply nth_error_Some; congruence).
+    assert (Hin : (i < n)%nat) by (apply nth_error_Some; congruence).
+    assert (Hd : kind_is_data (fk g) = true) by (rewrite Hk; reflexivity).
+    induction lp as [|[e pl] lp IH]; intros old es x k s p pre Hl Hmid Hmix Hk0.
+    - exists k, s, p, pre, x. cbn [map]. rewrite app_nil_r. auto.
+    - cbn [map app snd] in Hmix. destruct (mixedk_inv_cons _ _ _ Hmix) as [u [x1 [-> [Hu Hm1]]]].
+      destruct (Hl e pl (or_introl eq_refl)) as [Hne [Hwe [Hspl Hpay]]].
+      assert (Hf0 : exists f0, f = S f0).
+      { destruct f as [|f0]; [discriminate Hwe|exists f0; reflexivity]. }
+      destruct Hf0 as [f0 Ef0]. rewrite Ef0 in Hwe, Hpay. cbn [pred] in Hpay.
+      pose proof Hmid as [Mv Mh Mp Mw Ml].
+      destruct (b_ploop_unk u Hu k s p pre (tlv (ftyp g) pl ++ x1)) as [k1 [Hk1 E1]]; [lia|exact Hk0|].
+      rewrite E1. destruct k1 as [|k2]; [lia|].
+      rewrite (b_ploop_step sub m nm Hm ic).
+      2:{ pose proof (tlv_length_ge2 (ftyp g) pl). destruct (tlv (ftyp g) pl); [cbn in *; lia|discriminate]. }
+      destruct (b_pstep_field sc sub m nm Hm ic i g pl (Z.of_nat (length (rev u ++ pre))) s p (rev u ++ pre) x1 Hg Hd Hspl Mp)
+        as [s1 [V1 [H1 E2]]].
+      { intros Ho. apply (walk_from_mid i (VSeq old) s p); [lia|exact Hmid|exact Ho]. }
+      rewrite E2. rewrite Hk.
+      assert (Hf0' : (S f0 <= Fmax)%nat) by lia.
+      destruct (b_rd_field_seq_pay sc D Fmax Hsub f0 ic i k0 e pl old (Z.of_nat (length (rev u ++ pre))) s1
+                  (rev (tl_enc (N.of_nat (length pl))) ++ rev (tl_enc (ftyp g)) ++ rev u ++ pre) x1 Hf0' Hsub0 Hne Hwe Hspl
+                  (payq_pay f0 k0 e pl Hpay))
+        as [s2 [E3 [V2 H2]]].
+      { rewrite V1. apply (mid_slot i (VSeq old) s p); [lia|exact Hmid]. }
+      rewrite E3. cbn [is_rep].
+      pose proof (mid_update i (VSeq old) (VSeq (old ++ [e])) s s1 s2 p Hi Hmid V1 H1 V2 H2) as Hmid2.
+      destruct (IH (old ++ [e]) es x1 k2 s2 (if ordered m then (Z.of_nat i - 1)%Z else p)
+                  (rev pl ++ rev (tl_enc (N.of_nat (length pl))) ++ rev (tl_enc (ftyp g)) ++ rev u ++ pre))
+        as [k' [s' [p' [pre' [x' [A1 [A2 [A3 A4]]]]]]]].
+      + intros e' pl' He'. apply Hl. right. exact He'.
+      + exact Hmid2.
+      + exact Hm1.
+      + rewrite !app_length in Hk1. pose proof (tlv_length_ge2 (ftyp g) pl). lia.
+      + exists k', s', p', pre', x'. rewrite <- app_assoc in A2. cbn [app] in A2. cbn [map fst].
+        split; [exact A1|]. split; [exact A2|]. split; [exact A3|].
+        rewrite <- A4. destruct (ordered m); reflexivity.
+  Qed.
+
+
+  Lemma step_map_k i g key vt val : nth_error fs i = Some g -> fk g = KMap key vt val ->
+    map_key_ok key = true -> map_val_ok val = true -> vt < two64 ->
+    forall (lp : list ((value * value) * bytes)) old es x k s p pre,
+    (forall kx vx plv, In ((kx, vx), plv) lp ->
+        is_none kx = false /\ is_none vx = false /\ wf_val f sc key kx = true /\ wf_val f sc val vx = true /\
+        small (payload (pred f) sc key kx) /\ small plv /\ payq (pred f) val vx plv) ->
+    keys_nodup (old ++ map fst lp) = true ->
+    inv_mid i (VMap old) s p ->
+    mixedk (map (map_el g key vt) lp ++ es) x -> (length x < k)%nat ->
+    exists k' s' p' pre' x', mixedk es x' /\ inv_mid i (VMap (old ++ map fst lp)) s' p' /\ (length x' < k')%nat /\
+      b_ploop sub k m ic s p (mkbr pre x) = b_ploop sub k' m ic s' p' (mkbr pre' x').
+  Proof using Hsub Hm Hf Hwf HQ.
+    clear Hsmall.
+    intros Hg Hk Hkey Hval Hvt.
+    assert (Hi : (i < length vs)%nat) by (rewrite len_vs; apply nth_error_Some; congruence).
+    assert (Hin : (i < n)%nat) by (apply nth_error_Some; congruence).
+    assert (Hd : kind_is_data (fk g) = true) by (rewrite Hk; reflexivity).
+    induction lp as [|[[kx vx] plv] lp IH]; intros old es x k s p pre Hl Hnd Hmid Hmix Hk0.
+    - exists k, s, p, pre, x. cbn [map]. rewrite app_nil_r. auto.
+    - cbn [map app] in Hmix. unfold map_el at 1 in Hmix. cbn [fst snd] in Hmix.
+      destruct (mixedk_inv_cons _ _ _ Hmix) as [u [x1 [-> [Hu Hm1]]]].
+      destruct (Hl kx vx plv (or_introl eq_refl)) as [Hnk [Hnv [Hwk [Hwv [Hsk [Hsv Hpay]]]]]].
+      assert (Hf0 : exists f0, f = S f0).
+      { destruct f as [|f0]; [discriminate Hwk|exists f0; reflexivity]. }
+      destruct Hf0 as [f0 Ef0]. rewrite Ef0 in Hwk, Hwv, Hsk, Hpay, Hk0 |- *. cbn [pred] in Hsk, Hpay, Hk0 |- *.
+      set (plk := payload f0 sc key kx) in *.
+      pose proof Hmid as [Mv Mh Mp Mw Ml].
+      assert (Hk0' : (length (u ++ tlv (ftyp g) plk ++ tlv vt plv ++ x1) < k)%nat).
+      { clear - Hk0. rewrite !app_length in Hk0 |- *. lia. }
+      replace (u ++ (tlv (ftyp g) plk ++ tlv vt plv) ++ x1) with (u ++ tlv (ftyp g) plk ++ tlv vt plv ++ x1)
+        by (rewrite <- !app_assoc; reflexivity).
+      destruct (b_ploop_unk u Hu k s p pre (tlv (ftyp g) plk ++ tlv vt plv ++ x1)) as [k1 [Hk1 E1]]; [clear - Mp Hin; lia|exact Hk0'|].
+      rewrite E1. destruct k1 as [|k2]; [exfalso; clear - Hk1; lia|].
+      rewrite (b_ploop_step sub m nm Hm ic).
+      2:{ apply tlv_app_nonnil. }
+      destruct (b_pstep_field sc sub m nm Hm ic i g plk (Z.of_nat (length (rev u ++ pre))) s p (rev u ++ pre) (tlv vt plv ++ x1) Hg Hd Hsk Mp)
+        as [s1 [V1 [H1 E2]]].
+      { intros Ho. apply (walk_from_mid i (VMap old) s p); [clear - Hi; lia|exact Hmid|exact Ho]. }
+      rewrite E2. rewrite Hk.
+      assert (Hf0' : (S f0 <= Fmax)%nat) by (clear - Hf Ef0; lia).
+      destruct (b_rd_field_map_pay sc D Fmax Hsub f0 ic i key vt val kx vx plv old (Z.of_nat (length (rev u ++ pre))) s1
+                  (rev (tl_enc (N.of_nat (length plk))) ++ rev (tl_enc (ftyp g)) ++ rev u ++ pre) x1
+                  Hf0' Hkey Hval Hvt Hnk Hnv Hwk Hwv Hsk Hsv (payq_pay f0 val vx plv Hpay))
+        as [s2 [E3 [V2 H2]]].
+      { rewrite V1. apply (mid_slot i (VMap old) s p); [clear - Hi; lia|exact Hmid]. }
+      fold plk in E3. rewrite E3. cbn [is_rep].
+      assert (Hfresh : map_put kx vx old = old ++ [(kx, vx)]).
+      { apply map_put_fresh. apply not_true_is_false. intro Hex. apply existsb_exists in Hex as [o [Ho Eo]].
+        pose proof (keys_nodup_app old ((kx, vx) :: map fst lp) Hnd o (kx, vx) Ho (or_introl eq_refl)) as Hne. cbn [fst] in Hne.
+        rewrite value_eqb_key_sym in Hne. congruence. }
+      rewrite Hfresh in V2.
+      pose proof (mid_update i (VMap old) (VMap (old ++ [(kx, vx)])) s s1 s2 p Hi Hmid V1 H1 V2 H2) as Hmid2.
+      destruct (IH (old ++ [(kx, vx)]) es x1 k2 s2 (if ordered m then (Z.of_nat i - 1)%Z else p)
+                  (rev (plk ++ tlv vt plv) ++ rev (tl_enc (N.of_nat (length plk))) ++ rev (tl_enc (ftyp g)) ++ rev u ++ pre))
+        as [k' [s' [p' [pre' [x' [A1 [A2 [A3 A4]]]]]]]].
+      + intros kx' vx' plv' Hkv. apply Hl. right. exact Hkv.
+      + rewrite <- app_assoc. exact Hnd.
+      + exact Hmid2.
+      + exact Hm1.
+      + pose proof (tlv_length_ge2 (ftyp g) plk) as Hge. clear - Hk1 Hge. rewrite !app_length in Hk1. lia.
+      + exists k', s', p', pre', x'. rewrite <- app_assoc in A2. cbn [app] in A2. cbn [map fst].
+        split; [exact A1|]. split; [exact A2|]. split; [exact A3|].
+        rewrite <- A4. destruct (ordered m); reflexivity.
+  Qed.
+
+
+  Lemma prefix_loop_k : forall rem i jj, (rem = jj - i)%nat -> (i <= jj)%nat -> (jj <= n)%nat ->
+    forall es x k s p pre, inv i s p -> nelems (firstn rem (skipn i fs)) (firstn rem (skipn i vs)) es -> mixedk es x -> (length x < k)%nat ->
+    exists k' s' p' pre' x', K x' /\ inv jj s' p' /\ (length x' < k')%nat /\
+      b_ploop sub k m ic s p (mkbr pre x) = b_ploop sub k' m ic s' p' (mkbr pre' x').
+  Proof using Hsub Hm Hf Hwf HQ.
+    clear Hsmall.
+    induction rem as [|rem IH]; intros i jj Hrem Hi Hjj es x k s p pre Hinv Hnel Hmix Hk.
+    - assert (i = jj) by lia. subst jj. cbn [firstn] in Hnel. inversion Hnel; subst.
+      inversion Hmix; subst. exists k, s, p, pre, x. auto.
+    - assert (Hlt : (i < n)%nat) by lia.
+      destruct (nth_error fs i) as [g|] eqn:Hg; [|apply nth_error_None in Hg; lia].
+      pose proof (nth_vs i g Hg) as Hv. set (v := nth i vs VNone) in *.
+      rewrite (nth_error_skipn_cons fs i g Hg), (nth_error_skipn_cons vs i v Hv) in Hnel. cbn [firstn] in Hnel.
+      inversion Hnel as [|g0 gs0 v0 ws0 ev es' Hev Hrest]; subst g0 gs0 v0 ws0 es. clear Hnel.
+      pose proof (wf_at i g Hg) as Hw. fold v in Hw.
+      assert (Hil : (i < length vs)%nat) by (rewrite len_vs; exact Hlt).
+      assert (Hnext : forall k' s' p' pre' x', mixedk es' x' ->
+                inv (S i) s' p' -> (length x' < k')%nat ->
+                exists k'' s'' p'' pre'' x'', K x'' /\ inv jj s'' p'' /\ (length x'' < k'')%nat /\
+                  b_ploop sub k' m ic s' p' (mkbr pre' x') = b_ploop sub k'' m ic s'' p'' (mkbr pre'' x'')).
+      { intros k' s' p' pre' x' A1 A2 A3. apply (IH (S i) jj) with (es := es'); auto; lia. }
+      pose proof (inv_to_mid i g s p Hg Hinv) as Hmid0.
+      destruct Hev as [k0 lp Ek Ev Hl | key vt val lp Ek Ev Hl | pl Erep Esp Hspl Hpay | Erep Esp].
+      + (* sequence *)
+        rewrite Ek in Hmid0. cbn [zero_of] in Hmid0.
+        destruct (step_seq_k i g k0 Hg Ek (wf_seq_sub i g k0 Hg Ek) lp [] es' x k s p pre Hl Hmid0 Hmix Hk)
+          as [k' [s' [p' [pre' [x' [A1 [A2 [A3 A4]]]]]]]].
+        rewrite A4. cbn [app] in A2. destruct A2 as [Mv Mh Mp Mw Ml].
+        apply Hnext; auto. apply (make_inv i g); auto.
+        -- fold v. rewrite Ev. exact Mv.
+        -- intros j g' Hj Hg' Hpj Hrj. destruct (Nat.eq_dec j i) as [->|Hne].
+           ++ rewrite Hg in Hg'. inversion Hg'; subst g'. rewrite Ek in Hrj. discriminate Hrj.
+           ++ apply (Mh j g'); auto. lia.
+        -- lia.
+        -- intros Ho j g' Hj Hg'. destruct (Nat.eq_dec j i) as [->|Hne].
+           ++ rewrite Hg in Hg'. inversion Hg'; subst g'. left. rewrite Ek. reflexivity.
+           ++ apply (Mw Ho j g'); auto. lia.
+      + (* map *)
+        rewrite Ek in Hmid0. cbn [zero_of] in Hmid0.
+        destruct (wf_map_sub i g key vt val Hg Ek) as [Hkey [Hval Hvt]].
+        assert (Hnd : keys_nodup ([] ++ map fst lp) = true).
+        { cbn [app]. rewrite Ek, Ev in Hw. cbn [wf_val] in Hw. apply andb_true_iff in Hw as [_ Hnd]. exact Hnd. }
+        destruct (step_map_k i g key vt val Hg Ek Hkey Hval Hvt lp [] es' x k s p pre Hl Hnd Hmid0 Hmix Hk)
+          as [k' [s' [p' [pre' [x' [A1 [A2 [A3 A4]]]]]]]].
+        rewrite A4. cbn [app] in A2. destruct A2 as [Mv Mh Mp Mw Ml].
+        apply Hnext; auto. apply (make_inv i g); auto.
+        -- fold v. rewrite Ev. exact Mv.
+        -- intros j g' Hj Hg' Hpj Hrj. destruct (Nat.eq_dec j i) as [->|Hne].
+           ++ rewrite Hg in Hg'. inversion Hg'; subst g'. rewrite Ek in Hrj. discriminate Hrj.
+           ++ apply (Mh j g'); auto. lia.
+        -- lia.
+        -- intros Ho j g' Hj Hg'. destruct (Nat.eq_dec j i) as [->|Hne].
+           ++ rewrite Hg in Hg'. inversion Hg'; subst g'. left. rewrite Ek. reflexivity.
+           ++ apply (Mw Ho j g'); auto. lia.
+      + (* a present single-element field *)
+        apply andb_true_iff in Esp as [Es Ep]. cbn [app] in Hmix.
+        destruct (step_single_k i g pl Hg Es Ep Hspl Hpay es' x k s p pre Hinv Hmix Hk)
+          as [k' [s' [p' [pre' [x' [A1 [A2 [A3 A4]]]]]]]].
+        rewrite A4. apply Hnext; auto.
+      + (* absent / marker *)
+        cbn [app] in Hmix.
+        assert (Hel : elems_val f sc (ftyp g) (fk g) v =
+                      if single (fk g) && present (fk g) v then [enc_val (S f) sc (ftyp g) (fk g) v] else []).
+        { destruct (fk g); try discriminate Erep; destruct v; reflexivity. }
+        assert (Hz : v = zero_of (fk g)).
+        { apply (elems_nil_zero f sc (ftyp g) (fk g) v Hw). rewrite Hel, Esp. reflexivity. }
+        assert (Hnp : single (fk g) = false \/ present (fk g) v = false) by (apply andb_false_iff; exact Esp).
+        assert (Hpf : present (fk g) v = false).
+        { destruct Hnp as [Hns|Hnp]; [|exact Hnp]. destruct (fk g); try discriminate Hns; try discriminate Erep; reflexivity. }
+        destruct Hmid0 as [Mv Mh Mp Mw Ml].
+        apply Hnext; auto. apply (make_inv i g); auto.
+        -- fold v. rewrite Hz. exact Mv.
+        -- intros j g' Hj Hg' Hpj Hrj. destruct (Nat.eq_dec j i) as [->|Hne].
+           ++ rewrite Hg in Hg'. inversion Hg'; subst g'. fold v in Hpj. congruence.
+           ++ apply (Mh j g'); auto. lia.
+        -- lia.
+        -- intros Ho j g' Hj Hg'. destruct (Nat.eq_dec j i) as [->|Hne].
+           ++ rewrite Hg in Hg'. inversion Hg'; subst g'. right. exact Hpf.
+           ++ apply (Mw Ho j g'); auto. lia.
+  Qed.
+
+  End Kont.
+
+  Lemma bad_rd_val m' plb p t : small plb -> sub m' ic (br_of plb) = Err E_CRITICAL ->
+    exists r', b_rd_val sub ic (KStruct m') (N.of_nat (length plb)) (mkbr p (plb ++ t)) = RErr E_CRITICAL r'.
+  Proof using Hsub.
+    intros Hs Hb. cbn [rd_val]. rewrite to_int_small by exact Hs. rewrite nat_N_Z. rewrite (b_delegate_app sc D Fmax Hsub). rewrite Hb.
+    eexists; reflexivity.
+  Qed.
+
+  Lemma bad_single i g m' plb junk : nth_error fs i = Some g -> fk g = KStruct m' -> small plb ->
+    sub m' ic (br_of plb) = Err E_CRITICAL ->
+    forall u k s p pre, inv i s p -> unk false u -> (length (u ++ tlv (ftyp g) plb ++ junk) < k)%nat ->
+    b_ploop sub k m ic s p (mkbr pre (u ++ tlv (ftyp g) plb ++ junk)) = Err E_CRITICAL.
+  Proof using Hsub Hm Hf Hwf HQ.
+    clear Hsmall.
+    intros Hg Ek Hs Hb u k s p pre Hinv Hu Hk.
+    assert (Hin : (i < n)%nat) by (apply nth_error_Some; congruence).
+    assert (Hi : (i < length vs)%nat) by (rewrite len_vs; exact Hin).
+    pose proof (inv_to_mid i g s p Hg Hinv) as Hmid. pose proof Hmid as [Mv Mh Mp Mw Ml].
+    destruct (b_ploop_unk u Hu k s p pre (tlv (ftyp g) plb ++ junk)) as [k1 [Hk1 E1]]; [lia|exact Hk|].
+    rewrite E1. destruct k1 as [|k2]; [lia|].
+    rewrite (b_ploop_step sub m nm Hm ic). 2:{ apply tlv_app_nonnil. }
+    destruct (b_pstep_field sc sub m nm Hm ic i g plb (Z.of_nat (length (rev u ++ pre))) s p (rev u ++ pre) junk Hg
+                ltac:(rewrite Ek; reflexivity) Hs Mp) as [s1 [V1 [H1 E2]]].
+    { intros Ho. apply (walk_from_mid i (zero_of (fk g)) s p); [lia|exact Hmid|exact Ho]. }
+    rewrite E2. rewrite Ek. unfold rd_field.
+    destruct (bad_rd_val m' plb (rev (tl_enc (N.of_nat (length plb))) ++ rev (tl_enc (ftyp g)) ++ rev u ++ pre) junk Hs Hb) as [r' Er].
+    rewrite Er. reflexivity.
+  Qed.
+
+  Lemma bad_seq i g m' plb junk old : nth_error fs i = Some g -> fk g = KSeq (KStruct m') -> small plb ->
+    sub m' ic (br_of plb) = Err E_CRITICAL ->
+    forall u k s p pre, inv_mid i (VSeq old) s p -> unk false u -> (length (u ++ tlv (ftyp g) plb ++ junk) < k)%nat ->
+    b_ploop sub k m ic s p (mkbr pre (u ++ tlv (ftyp g) plb ++ junk)) = Err E_CRITICAL.
+  Proof using Hsub Hm Hf Hwf HQ.
+    clear Hsmall.
+    intros Hg Ek Hs Hb u k s p pre Hmid Hu Hk.
+    assert (Hin : (i < n)%nat) by (apply nth_error_Some; congruence).
+    assert (Hi : (i < length vs)%nat) by (rewrite len_vs; exact Hin).
+    pose proof Hmid as [Mv Mh Mp Mw Ml].
+    destruct (b_ploop_unk u Hu k s p pre (tlv (ftyp g) plb ++ junk)) as [k1 [Hk1 E1]]; [lia|exact Hk|].
+    rewrite E1. destruct k1 as [|k2]; [lia|].
+    rewrite (b_ploop_step sub m nm Hm ic). 2:{ apply tlv_app_nonnil. }
+    destruct (b_pstep_field sc sub m nm Hm ic i g plb (Z.of_nat (length (rev u ++ pre))) s p (rev u ++ pre) junk Hg
+                ltac:(rewrite Ek; reflexivity) Hs Mp) as [s1 [V1 [H1 E2]]].
+    { intros Ho. apply (walk_from_mid i (VSeq old) s p); [lia|exact Hmid|exact Ho]. }
+    rewrite E2. rewrite Ek. unfold rd_field.
+    destruct (bad_rd_val m' plb (rev (tl_enc (N.of_nat (length plb))) ++ rev (tl_enc (ftyp g)) ++ rev u ++ pre) junk Hs Hb) as [r' Er].
+    rewrite Er. reflexivity.
+  Qed.
+
+  Definition kbad_tail (g : field) (m' : nat) (z : bytes) : Prop :=
+    exists u plb junk, unk false u /\ small plb /\ sub m' ic (br_of plb) = Err E_CRITICAL /\ z = u ++ tlv (ftyp g) plb ++ junk.
+
+  (* what remains of the stream at field j: a bad struct value, or good elements of a sequence of structs and then a bad one *)
+  Definition kbad (j : nat) (g : field) (y : bytes) : Prop :=
+    (exists m' u plb junk, fk g = KStruct m' /\ unk false u /\ small plb /\ sub m' ic (br_of plb) = Err E_CRITICAL /\
+                           y = u ++ tlv (ftyp g) plb ++ junk) \/
+    (exists m' (lp : list (value * bytes)), fk g = KSeq (KStruct m') /\
+        (forall e pl, In (e, pl) lp -> is_none e = false /\ wf_val f sc (KStruct m') e = true /\ small pl /\ payq (pred f) (KStruct m') e pl) /\
+        mixedk (kbad_tail g m') (map (fun ep => tlv (ftyp g) (snd ep)) lp) y).
+
+  Lemma fields_loop_bad j g : nth_error fs j = Some g ->
+    forall es x k s p pre, inv 0 s p -> nelems (firstn j fs) (firstn j vs) es -> mixedk (kbad j g) es x -> (length x < k)%nat ->
+    b_ploop sub k m ic s p (mkbr pre x) = Err E_CRITICAL.
+  Proof using Hsub Hm Hf Hwf HQ.
+    clear Hsmall.
+    intros Hg es x k s p pre Hinv Hnel Hmix Hk.
+    assert (Hjn : (j < n)%nat) by (apply nth_error_Some; congruence).
+    destruct (prefix_loop_k (kbad j g) j 0%nat j ltac:(lia) ltac:(lia) ltac:(lia) es x k s p pre Hinv Hnel Hmix Hk)
+      as [k' [s' [p' [pre' [x' [HK [Hinv' [Hk' E]]]]]]]].
+    rewrite E. destruct HK as [[m' [u [plb [junk [Ek [Hu [Hs [Hb ->]]]]]]]] | [m' [lp [Ek [Hl Hmk]]]]].
+    - apply (bad_single j g m' plb junk Hg Ek Hs Hb); assumption.
+    - pose proof (inv_to_mid j g s' p' Hg Hinv') as Hmid0. rewrite Ek in Hmid0. cbn [zero_of] in Hmid0.
+      destruct (step_seq_k (kbad_tail g m') j g (KStruct m') Hg Ek eq_refl lp [] [] x' k' s' p' pre' Hl Hmid0) as [k2 [s2 [p2 [pre2 [x2 [A1 [A2 [A3 A4]]]]]]]].
+      + rewrite app_nil_r. exact Hmk.
+      + exact Hk'.
+      + rewrite A4. inversion A1 as [y Hy|]; subst. destruct Hy as [u [plb [junk [Hu [Hs [Hb ->]]]]]].
+        apply (bad_seq j g m' plb junk ([] ++ map fst lp) Hg Ek Hs Hb); assumption.
+  Qed.
 End RT.
